@@ -331,7 +331,7 @@ func (p *ProtocolGraphQLWSHandler) EventHandler() subscription.EventHandler {
 
 func (p *ProtocolGraphQLWSHandler) handleInit(ctx context.Context, payload []byte) (context.Context, error) {
 	initCtx := ctx
-	if p.initFunc != nil && len(payload) > 0 {
+	if p.initFunc != nil {
 		// check initial payload to see whether to accept the websocket connection
 		var err error
 		if initCtx, err = p.initFunc(ctx, payload); err != nil {
